@@ -19,6 +19,11 @@ CLAIMS = {
     "C12": ("Leaf.URLPath / router.URLPath with symbolic values (any bytes), symbolic presence and withOptional, real strings.Replacer from stdlib SSA, against the substitution the statement describes; inverse clause asserted on symbolic routing runs; the demanded panics checked.", "§3/C12"),
     "C14": ("Handlers of every supported return shape with symbolic strings/bytes/status/nil-ness run through a real Flame; status line, body bytes and chain continuation are asserted against the statement's table; reflective and teapot fast path; registered ReturnHandler replaces the table.", "§3/C14"),
     "C15": ("Real Recovery() closure in chains with symbolic panic kind (string, error, two run-time errors, struct, failed dependency resolution), phase, earlier status, environment, nesting style: nothing escapes ServeHTTP, status/body rules, middleware in front completes, a later request is served normally.", "§3/C15"),
+    "C08": ("Real AddRoute (and everything below it, incl. regexp.Compile) on registration histories of up to 3 routes whose every identifier is a symbolic byte, against a mustReject predicate written from the statement: error iff ill-formed, never a crash; at router level a symbolic method string and per-method duplicates.", "§3/C08"),
+    "C11": ("A registration program template (3 nesting levels; Group, Get/Post/Delete, Routes in both spellings, Any, AutoHead toggles, Combo inside and outside groups) with symbolic statement guards, list lengths and slice capacities runs on the real router; afterwards every (method, path) is requested and the handler list handed to the context is compared with the flat expansion.", "§3/C11"),
+    "C16": ("Real Static() closure with symbolic URL path, method and file-system answers (error/file/directory, failing Stat): only GET/HEAD, only under the prefix at a segment boundary, only the two allowed names are opened, silence when it cannot serve, 302 for slash-less directories, 304 on ETag match; plus the http.Dir containment lemma executed from stdlib SSA with os.Open intercepted.", "§3/C16"),
+    "C17": ("Real Renderer/render.* with symbolic status, charset, indentation and body bytes: status, Content-Type before the status line, verbatim bytes; encoders stubbed by contract (reduced claim).", "§3/C17"),
+    "C18": ("Real accessors with symbolic query values/defaults/presence; typed accessors over a menu of hostile numerals; cookie round trip as solver-decided lemmas over all byte values on the real net/url code, with net/http's cookie writer/reader assumed identity on QueryEscape's alphabet.", "§3/C18"),
     "C13": ("Every k-step operation sequence (k<=4 quick, <=6 thorough) on the real responseWriter with symbolic status code, method bytes and write lengths, plus a one-step inductive lemma from an arbitrary invariant-satisfying state (sequences of any length modulo the invariant).", "§3/C13"),
 }
 
